@@ -255,7 +255,13 @@ def gen_filter(rng: random.Random, col: str, kind: str, present: List[Any], allo
     t = rng.choice(types)
     gp = lambda: gen_param(rng, kind, present)  # noqa: E731
     if t == "range":
-        par: Dict[str, Any] = {"min": gp(), "max": gp()}
+        lo, hi = gp(), gp()
+        try:
+            if rng.random() < 0.75 and pyval(lo) > pyval(hi):       # mostly a non-empty window whose bounds occur in the column
+                lo, hi = hi, lo
+        except TypeError:
+            pass
+        par: Dict[str, Any] = {"min": lo, "max": hi}
         x = rng.choice(["absent", True, False])
         if x != "absent":
             par["max_exclusive"] = x
@@ -462,6 +468,34 @@ def run_engine(c: Dict[str, Any]) -> Any:
     except BaseException as e:  # noqa: BLE001
         return err_name(e), order
     return observe_rows(fw, out, c["table"], c["cols"]), order
+
+
+def S(x: Any) -> Any:
+    return None if x is None else (["s", x] if isinstance(x, str) else ["i", x])
+
+
+def witness_engine_cases() -> List[Dict[str, Any]]:
+    """the committed witnesses of the engine-level known findings (corpus, run first on every run)."""
+    def mk(fw: str, kind: str, col: List[Any], f: Dict[str, Any]) -> Dict[str, Any]:
+        t = [{"id": ["i", i], "c": S(v)} for i, v in enumerate(col)]
+        return {"kind": "engine", "fw": fw, "cols": {"c": kind}, "kinds": {"c": kind}, "table": t, "names": ["id", "c"],
+                "filters": [f], "flavour": "fine", "witness": True}
+    ws = [mk("pa", "str", ["a", "ab", None, "ba"], {"col": "c", "type": "regex", "par": {"value": ["s", "a"]}}),
+          mk("pd", "int", [1, 2], {"col": "c", "type": "min", "par": {"value": ["i", 2]}}),
+          mk("pdo", "int", [1, 2, None, 3, 2], {"col": "c", "type": "categorical_inclusion", "par": {"values": [["i", 2], None]}}),
+          mk("pa", "str", ["a", None], {"col": "c", "type": "categorical_inclusion", "par": {"values": []}})]
+    ws[2]["flavour"] = "null_member"
+    for c in ws:
+        c["obs"], _ = run_engine(c)
+    return ws
+
+
+def witness_e2e_cases() -> List[Dict[str, Any]]:
+    c = {"kind": "e2e", "fw": "py", "groups": [{"id": "a_id", "cols": {"c": "int"},
+                                                "table": [{"id": ["i", i], "c": ["i", v]} for i, v in enumerate([1, 2, 3])]}],
+         "filters": [{"col": "c", "type": "min", "par": {"value": ["i", 5]}}], "request": ["a_id"], "derived": [], "witness": True}
+    c["result"] = run_e2e(c)
+    return [c]
 
 
 def engine_cases(rng: random.Random, n: int) -> List[Dict[str, Any]]:
@@ -878,38 +912,55 @@ def time_e2e_cases(rng: random.Random, n: int) -> List[Dict[str, Any]]:
             return {"y": y.year, "mo": y.month, "d": y.day, "h": y.hour, "mi": y.minute, "s": y.second, "us": y.microsecond,
                     "zone": z, "fold": y.fold}
 
-        lo, hi = base, base + span
-        tf = {"col": "c", "from": as_zone(lo), "to": as_zone(hi), "excl": rng.choice([True, True, False])}
-        # as_zone may land on a different instant when the wall clock is ambiguous; recompute the instants actually denoted
-        lo_i, hi_i = mk_dt(tf["from"]).astimezone(timezone.utc), mk_dt(tf["to"]).astimezone(timezone.utc)
-        cands = [lo_i, hi_i, lo_i - timedelta(microseconds=1), hi_i - timedelta(microseconds=1), lo_i + timedelta(microseconds=1),
-                 hi_i + timedelta(microseconds=1), lo_i + (hi_i - lo_i) / 2, lo_i - timedelta(days=1), hi_i + timedelta(hours=5),
-                 lo_i.replace(microsecond=0), hi_i.replace(microsecond=0) + timedelta(seconds=1)]
+        def window(col: str, lo: datetime, hi: datetime) -> Tuple[Dict[str, Any], datetime, datetime]:
+            w = {"col": col, "from": as_zone(lo), "to": as_zone(hi)}
+            a, b = mk_dt(w["from"]), mk_dt(w["to"])
+            w["from_off"], w["to_off"] = td_us(a.utcoffset()), td_us(b.utcoffset())
+            return w, a.astimezone(timezone.utc), b.astimezone(timezone.utc)     # the instants actually denoted
+
+        def cell(lo_i: datetime, hi_i: datetime) -> Tuple[Any, Optional[datetime]]:
+            if rng.random() < 0.15:
+                return None, None
+            x = rng.choice([lo_i, hi_i, lo_i - timedelta(microseconds=1), hi_i - timedelta(microseconds=1),
+                            lo_i + timedelta(microseconds=1), hi_i + timedelta(microseconds=1), lo_i + (hi_i - lo_i) / 2,
+                            lo_i - timedelta(days=1), hi_i + timedelta(hours=5), lo_i.replace(microsecond=0),
+                            hi_i.replace(microsecond=0) + timedelta(seconds=1)])
+            return ["s", x.isoformat()], x
+
+        tf, lo_i, hi_i = window("c", base, base + span)
+        tf["excl"] = rng.choice([True, True, False])
+        cols = {"c": "str"}
+        if rng.random() < 0.35:
+            v, vlo, vhi = window("d", base - span, base + span / 2)
+            tf["valid"] = v
+            cols["d"] = "str"
         rows, instants = [], []
         for i in range(rng.randrange(1, 10)):
-            if rng.random() < 0.15:
-                rows.append({"id": ["i", i], "c": None})
-                instants.append(None)
-            else:
-                x = rng.choice(cands)
-                rows.append({"id": ["i", i], "c": ["s", x.isoformat()]})
-                instants.append(x)
-        groups = [{"id": "a_id", "cols": {"c": "str"}, "table": rows}]
+            r: Dict[str, Any] = {"id": ["i", i]}
+            r["c"], x = cell(lo_i, hi_i)
+            y: Optional[datetime] = None
+            if "d" in cols:
+                r["d"], y = cell(vlo, vhi)
+            rows.append(r)
+            instants.append((x, y))
+        groups = [{"id": "a_id", "cols": cols, "table": rows}]
         if rng.random() < 0.4:
             groups.append({"id": "b_id", "cols": {}, "table": [{"id": ["i", j]} for j in range(rng.randrange(1, 4))]})
         c = {"kind": "time_e2e", "fw": fw, "groups": groups, "filters": [], "time": [tf], "request": [g["id"] for g in groups], "derived": []}
         c["result"] = run_e2e(c)
         # Python oracle on instants (aware datetime comparison)
-        c["oracle_ids"] = [i for i, x in enumerate(instants)
-                           if x is not None and lo_i <= x and (x < hi_i if tf["excl"] else x <= hi_i)]
-        c["offsets"] = [td_us(mk_dt(tf["from"]).utcoffset()), td_us(mk_dt(tf["to"]).utcoffset())]
+        def inside(x: Optional[datetime], lo: datetime, hi: datetime) -> bool:
+            return x is not None and lo <= x and (x < hi if tf["excl"] else x <= hi)
+        c["oracle_ids"] = [i for i, (x, y) in enumerate(instants)
+                           if inside(x, lo_i, hi_i) and ("valid" not in tf or inside(y, vlo, vhi))]
         out.append(c)
     return out
 
 
 def tcase_term(c: Dict[str, Any], g: Dict[str, Any], obs: Any) -> str:
     tf = c["time"][0]
-    l = cq_list([f"({cq_str(tf['col'])}, {cq_dt(tf['from'], c['offsets'][0])}, {cq_dt(tf['to'], c['offsets'][1])}, {cq_bool(tf['excl'])})"])
+    ws = [tf] + ([tf["valid"]] if tf.get("valid") else [])
+    l = cq_list(f"({cq_str(w['col'])}, {cq_dt(w['from'], w['from_off'])}, {cq_dt(w['to'], w['to_off'])}, {cq_bool(tf['excl'])})" for w in ws)
     names = cq_list(cq_str(n) for n in [g["id"]] + list(g["cols"]))
     return f"(({names}, {l}, {cq_table(g['table'])}), {cq_obs(obs)})"
 
@@ -1039,7 +1090,7 @@ def run(rep: vlib.Reporter, tier: str, seed: int) -> None:
             rep.nontrivial(("d", c["label"]))
 
     # ---- engine level ----
-    ec = engine_cases(rng, 20000 if big else 620)
+    ec = witness_engine_cases() + engine_cases(rng, 20000 if big else 620)
     rep.count(len(ec))
     mix: Dict[str, int] = {}
     ftmix: Dict[str, int] = {}
@@ -1083,7 +1134,7 @@ def run(rep: vlib.Reporter, tier: str, seed: int) -> None:
                        "nontrivial_results": nontriv, **cnt, **{k: v for k, v in info_m.items() if k == "cmd"}})
 
     # ---- end to end ----
-    xc = e2e_cases(rng, 1000 if big else 64)
+    xc = witness_e2e_cases() + e2e_cases(rng, 1000 if big else 64)
     rep.count(len(xc))
     per_group: List[Dict[str, Any]] = []
     ctx: List[Dict[str, Any]] = []
@@ -1147,8 +1198,10 @@ def run(rep: vlib.Reporter, tier: str, seed: int) -> None:
     # the same instant in another zone: model on the second writing + direct comparison of the two real strings
     oc = [c for c in tc if "other" in c]
     bado, _ = coq_bad("time_other", "chk_time", [time_term(c["other"], c["other"]["off_us"], c["obs"]) for c in oc], ty="dt * tobs", shard=400)
+    nz = 0
     for j, c in enumerate(oc):
-        if j in bado or not c["same_instant_same_string"]:
+        if (j in bado or not c["same_instant_same_string"]) and nz < 5:
+            nz += 1
             rep.finding(f"time-zone:{json.dumps(c['dt'], sort_keys=True)}:{c['other_zone']}",
                         f"the instant {c['dt']} written in zone {c['other_zone']} is converted to a different string", c)
             found = True
@@ -1196,7 +1249,8 @@ def run(rep: vlib.Reporter, tier: str, seed: int) -> None:
     for c in te:
         if not c["result"]["error"] and 0 < len(c["oracle_ids"]) < len(c["groups"][0]["table"]):
             rep.nontrivial(("te", c["fw"], c["time"], c["groups"][0]["table"]))
-    rep.add("time_e2e", {"runs": len(te), "judged": len(t_terms), "disagreements_with_spec": len(badz) - sum(kf_t.values()),
+    rep.add("time_e2e", {"runs": len(te), "judged": len(t_terms), "with_validity_window": sum(1 for c in te if "valid" in c["time"][0]),
+                         "frameworks": {fw: sum(1 for c in te if c["fw"] == fw) for fw in ("pa", "py", "pdo", "pd")}, "disagreements_with_spec": len(badz) - sum(kf_t.values()),
                          "disagreements_with_instant_oracle": oracle_diff, **kf_t})
 
     # ---- witnesses ----
@@ -1220,8 +1274,10 @@ def run(rep: vlib.Reporter, tier: str, seed: int) -> None:
                     "non-trivial = an applicable filter and a result that is a proper non-empty subset of the rows, or an error outcome; "
                     "distinct by full input. time: aware datetimes in 14 IANA zones, fixed offsets with seconds/microseconds, naive, "
                     "overflow; non-trivial = non-zero offset and successful conversion")
-    for c in (dc[0], next((c for c in ec if c["fw"] == "pa" and c["flavour"] == "fine"), ec[0]),
-              next((c for c in ec if c["fw"] == "py" and len(c["filters"]) > 1), ec[1]), xc[0], tc[7], te[0]):
+    for c in (dc[0], next((c for c in ec if c["fw"] == "pa" and c["flavour"] == "fine" and not c.get("witness") and len(c["table"]) > 2), ec[0]),
+              next((c for c in ec if c["fw"] == "py" and len(c["filters"]) > 1 and len(c["table"]) > 2), ec[1]),
+              next((c for c in xc if not c.get("witness") and not c["result"]["error"]), xc[0]), tc[7],
+              next((c for c in te if not c["result"]["error"]), te[0])):
         rep.sample(short(c))
     if not pr.ok and not found:
         rep.finding("proof-broken", "Props/C11.v no longer checks",
